@@ -33,7 +33,7 @@ m = dict(
     ],
     checks=checks,
     not_applicable=na,
-    notes="contract-based deductive verification of the real code; see DESIGN.md. exit 2 from a check = undecided (tool limit / lost anchor), never an alarm.",
+    notes="contract-based deductive verification of the real code (Verus + Kani on text extracted mechanically from /repo on every run); DESIGN.md section 10 describes what is built, 10.12 summarises per property. exit 0 = held on everything explored (KNOWN-FINDING lines for the listed findings), exit 1 = VIOLATION line(s), exit 2 = undecided (tool limit / lost anchor / machinery failure), never an alarm. C15 and C16 are claimed partially (loader's own segment code; the elf crate is trusted). Solver results are cached by content hash (results_cache/ is the committed copy for the unchanged tree; AXV_NO_CACHE=1 forces cold runs: about 25 min for the 639 L2 harnesses on 16 cores).",
 )
 json.dump(m, open(os.path.join(V, "MANIFEST.json"), "w"), indent=1)
 print(len(checks), "checks,", len(na), "not applicable")
